@@ -524,6 +524,21 @@ pub fn run(tier: &str) -> i32 {
     let c = space_c(thorough);
     let n_c = c.len();
     progs.extend(c);
+    // identifier styles of the resource variables (camelCase, UPPER): every 16th program in quick
+    {
+        let n0 = progs.len();
+        for i in 0..n0 {
+            if !(thorough || hash64(&progs[i].key) % 16 == 2) {
+                continue;
+            }
+            for style in ["camel", "upper"] {
+                if let Some((src, map)) = restyle_globals(&progs[i].src, style) {
+                    let expect = progs[i].expect.iter().map(|(n, g, b, s)| (map.iter().find(|(a, _)| a == n).map(|(_, b)| b.clone()).unwrap_or(n.clone()), *g, *b, *s)).collect();
+                    progs.push(Prog { key: format!("{}|names={style}", progs[i].key), src, expect, steps: progs[i].steps });
+                }
+            }
+        }
+    }
     // module-scope declaration order is not significant in WGSL: the same programs with their declarations reversed
     // and with the functions first (every 8th program in quick)
     let n0 = progs.len();
